@@ -4,6 +4,8 @@ set -e
 cd "$(dirname "$0")"
 [ -f harness/Cargo.lock ] || cp /repo/Cargo.lock harness/Cargo.lock
 (cd harness && CARGO_NET_OFFLINE=true cargo build --profile verif --offline 2>&1 | tail -3)
+[ -f harness-min/Cargo.lock ] || cp /repo/Cargo.lock harness-min/Cargo.lock
+(cd harness-min && CARGO_NET_OFFLINE=true cargo build --profile verif --offline 2>&1 | tail -3)
 cd spec
 for f in *.tla; do
   tla-sany "$f" >/tmp/sany.$$ 2>&1 || { echo "SANY failed on $f"; tail -20 /tmp/sany.$$; rm -f /tmp/sany.$$; exit 1; }
